@@ -338,7 +338,14 @@ def classify(res, text, registry):
         if not any(re.search(p_, msg) for p_ in FAILURE_PATTERNS):
             is_tool = True   # only recognised proof-obligation failures can ever become violations
         if is_tool:
-            line = spans[0]['line_start'] if spans else 0
+            # locate the error: primary span first, then any span that falls inside a function under contract
+            cand = [s_['line_start'] for s_ in spans if s_.get('is_primary')] + [s_['line_start'] for s_ in spans]
+            line = cand[0] if cand else 0
+            known_fns = {c_.fn for c_ in registry}
+            for ln_ in cand:
+                if fn_at(ln_) in known_fns:
+                    line = ln_
+                    break
             tool.append({'msg': msg, 'line': line, 'fn': fn_at(line), 'compile': bool(code) or not any(re.search(p_, msg) for p_ in TOOL_LIMIT_PATTERNS)})
             continue
         prim = [s for s in spans if s.get('is_primary')] or spans
